@@ -457,6 +457,18 @@ impl R {
     /// (must decode without warnings and re-encode to the same bytes), `v:<Error>` = bytes that
     /// violate a described constraint (must be rejected with that error), `-` = none.
     fn oracle_bytes(&self, dec_again: fn(&[u8]) -> Dec, d: &Dec, input: &str, expect: &str, o: &mut Oracle) {
+        // `c=<value>`: canonical bytes, built by the generator from exactly these member values
+        let (expect, built_from) = match expect.strip_prefix("c=") {
+            Some(v) => ("c", Some(v)),
+            None => (expect, None),
+        };
+        if let (Some(want), Dec::Ok(name, val, _, _)) = (built_from, d) {
+            if want != val {
+                o.fail("C14/decoded-fields-differ-from-description", format!("bytes={} {} decoded={} built-from={}", input, name, val, want));
+            } else {
+                o.count("decoded_fields_compared");
+            }
+        }
         match d {
             Dec::Panic => o.fail("C14/decode-panics", format!("bytes={}", input)),
             Dec::Err(e, _) => {
@@ -507,6 +519,17 @@ impl R {
     }
 
     fn oracle_obj(&self, d: &ODec, ints: &[i32], expect: &str, has_bool: bool, o: &mut Oracle) {
+        let (expect, built_from) = match expect.strip_prefix("c=") {
+            Some(v) => ("c", Some(v)),
+            None => (expect, None),
+        };
+        if let (Some(want), ODec::Ok(name, val, ..)) = (built_from, d) {
+            if want != val {
+                o.fail("C14/decoded-fields-differ-from-description", format!("ints={} obj:{} decoded={} built-from={}", ints_str(ints), name, val, want));
+            } else {
+                o.count("decoded_fields_compared");
+            }
+        }
         match d {
             ODec::Panic => o.fail("C14/decode-panics", format!("ints={}", ints_str(ints))),
             ODec::Err(e) => {
@@ -974,12 +997,12 @@ fn cands(t: &T, rng: &mut Rng, last: bool) -> Vec<Cand> {
             }
         }
         T::Be16 => {
-            for v in [258u16, 0, 1, 255, 256, 65535] {
+            for v in [258u16, 0, 1, 63, 64, 127, 128, 255, 256, 32767, 32768, 65535] {
                 out.push(Cand::ok(v.to_be_bytes().to_vec(), vec![], format!("i{}", v)));
             }
         }
         T::U8 => {
-            for v in [7u8, 0, 1, 255] {
+            for v in [7u8, 0, 1, 63, 64, 127, 128, 255] {
                 out.push(Cand::ok(vec![v], vec![], format!("i{}", v)));
             }
         }
@@ -1078,6 +1101,20 @@ fn sweep(ms: &[T], rng: &mut Rng, last: bool, randoms: usize) -> Vec<Cand> {
     let base: Vec<Cand> = all.iter().map(|c| c[0].clone()).collect();
     let absent = Cand { wire: vec![], ints: vec![], val: Some("n".into()), viol: None, canon: true, absent: true };
     let mut out = vec![join(&base)];
+    // canonical values that differ from member to member (so that exchanged fields show)
+    let distinct: Vec<Cand> = all
+        .iter()
+        .enumerate()
+        .map(|(i, c)| {
+            let good: Vec<&Cand> = c.iter().filter(|x| x.canon && !x.absent && x.val.is_some()).collect();
+            if good.is_empty() {
+                c[0].clone()
+            } else {
+                good[(i + 1) % good.len()].clone()
+            }
+        })
+        .collect();
+    out.push(join(&distinct));
     for i in 0..n {
         for c in &all[i][1..] {
             let mut v = base.clone();
@@ -1126,7 +1163,10 @@ fn expect_of(c: &Cand) -> String {
         Some(e) => format!("v:{}", e),
         None => {
             if c.canon {
-                "c".to_string()
+                match &c.val {
+                    Some(v) => format!("c={}", v),
+                    None => "c".to_string(),
+                }
             } else {
                 "-".to_string()
             }
